@@ -34,7 +34,7 @@ DocsSeq == { Obj(<<A, B>>, <<Arr(<<IntV(1), IntV(2)>>), Obj(<<A>>, <<Arr(<<>>)>>
              Arr(<<IntV(1), IntV(2)>>), Obj(<<>>, <<>>), Arr(<<>>) }
 Docs == IF Universe = "single" THEN DocsSingle ELSE DocsSeq
 
-Values(d) == {IntV(7), Bool(TRUE), IntV(1), Arr(<<>>), Obj(<<A>>, <<Arr(<<IntV(1)>>)>>)}
+Values(d) == {IntV(7), Bool(TRUE), IntV(1), Null, Arr(<<>>), Obj(<<A>>, <<Arr(<<IntV(1)>>)>>)}
 
 \* paths worth trying on the current document: every existing location, every
 \* one-step extension of a container (append position, past the end, "-",
